@@ -338,6 +338,14 @@ class CommandPipeline:
                 if not spec.threadable:
                     for ch in spec.pipe_channels:
                         ch.close_writer()
+                    # There is no reader loop on this path, so the stderr
+                    # capture pipe that !() sets up would never be read:
+                    # drain it now that its write end is closed.
+                    errpipe = spec.captured_stderr
+                    if errpipe is not None and safe_readable(errpipe):
+                        errpipe = getattr(errpipe, "buffer", errpipe)
+                        errlines = _read_all(errpipe).splitlines(keepends=True)
+                        self.stream_stderr(errlines)
                 if self.captured in ("object", "hiddenobject") and stdout:
                     yield from _drain_stdout(stdout)
                     self.end(tee_output=False)
